@@ -25,7 +25,7 @@ EOLS = {"LF": "\n", "CRLF": "\r\n", "CR": "\r"}
 
 
 def generate(tier, seed):
-    n = 60 if tier == "quick" else 12000
+    n = 180 if tier == "quick" else 12000
     return [{"k": k, "n": 50} for k in range(n)]
 
 
